@@ -1,6 +1,6 @@
 (* Props/C03.v — property theorems only.  C03: rectangular-family candidates stay on the land and respect spacing. *)
 From Coq Require Import ZArith QArith Qround List.
-From GHE Require Import Base.QUtil gen.Src Model.Domains Proof.DomainsP.
+From GHE Require Import Base.QUtil gen.Src Model.Domains Proof.DomainsP Proof.NearSquareP.
 Import ListNotations.
 Open Scope Q_scope.
 
@@ -64,3 +64,17 @@ Example C03_transposed_lot_ok :
   forallb strictly_sorted_counts (bi_rectangle_nested 25 40 5 10 12 false) = true /\
   strictly_sorted_counts (rectangular 25 40 5 10 false) = true.
 Proof. vm_compute. auto. Qed.
+
+(* the near-square candidate list REGENERATED from domains.square_and_near_square, for every index range and spacing: for i = lower..upper
+   the i x i grid followed by the i x (i+1) grid (each the lattice of C03_rectangle_is_the_lattice at spacing b) ... *)
+Theorem C03_near_square_list : forall (lo hi : Z) (b : Q), (1 <= lo <= hi)%Z ->
+  square_and_near_square (inject_Z lo) (inject_Z hi) b = Ok (flat_map (pair_of b) (qrange (inject_Z lo) (qadd (inject_Z hi) (1 # 1)))).
+Proof. exact near_square_list. Qed.
+Print Assumptions C03_near_square_list.
+
+(* ... 2 (upper - lower + 1) candidates, ordered by non-decreasing borehole count: i*i <= i*(i+1) <= (i+1)*(i+1) *)
+Theorem C03_near_square_counts_nondecreasing : forall (lo hi : Z) (b : Q), (1 <= lo <= hi)%Z ->
+  exists dom, square_and_near_square (inject_Z lo) (inject_Z hi) b = Ok dom /\
+              length dom = (2 * Z.to_nat (hi - lo + 1))%nat /\ nondecreasing (map (@length (Q * Q)) dom).
+Proof. exact near_square_counts_nondecreasing. Qed.
+Print Assumptions C03_near_square_counts_nondecreasing.
